@@ -59,6 +59,17 @@ where
                 Ok(Value::String(v)) if v == t => {},
                 other => return Err(format!("[{}] to_value of {t:?} gives {other:?}", I::NAME)),
             }
+            // serde's own `Serializer for &mut fmt::Formatter`: whatever flags the formatter carries, what
+            // arrives is the canonical string (or the canonical string padded / truncated as a whole)
+            {
+                struct ViaFormatter<'a, P>(&'a P);
+                impl<P: serde::Serialize> std::fmt::Display for ViaFormatter<'_, P> {
+                    fn fmt(&self, f: &mut std::fmt::Formatter<'_>) -> std::fmt::Result {
+                        self.0.serialize(f)
+                    }
+                }
+                crate::api::check_flags(&ViaFormatter(p), &t, &format!("[{}] serialised into a fmt::Formatter", I::NAME))?;
+            }
             // JSON round trip
             match serde_json::from_str::<GenericPurl<I::T>>(&ser) {
                 Ok(q) if q == *p => {},
@@ -279,6 +290,64 @@ fn o_string(s: &String, st: &mut Stats) -> Result<(), String> {
     all(s, st)
 }
 
+/// Two PURLs serialised (and deserialised) directly after one another on one thread: a generated
+/// tuple and a near-collision of it (C19's mutations: one character changed, moved inside a field or
+/// across a field boundary, a separator moved into a neighbouring field ...). Each must serialise as
+/// its own canonical string whatever was serialised just before.
+fn o_near_pair(c: &crate::props::c19::PairCase, st: &mut Stats) -> Result<(), String> {
+    use crate::props::c03::build_fields;
+    let a = crate::props::c19::fields_of(&c.tuple, false);
+    let b = crate::props::c19::mutate(&a, &c.mutation);
+    let (Some(pa), Some(pb)) = (build_fields::<IStr>(&a)?, build_fields::<IStr>(&b)?) else {
+        st.class("pair-does-not-build");
+        return Ok(());
+    };
+    let (ta, tb) = (text(&pa).map_err(|m| format!("to_string panicked: {m}"))?, text(&pb).map_err(|m| format!("to_string panicked: {m}"))?);
+    for (first, second, want) in [(&pa, &pb, &tb), (&pb, &pa, &ta)] {
+        let r = guard(|| {
+            let one = serde_json::to_string(first);
+            let two = serde_json::to_string(second);
+            (one.is_ok(), two)
+        })
+        .map_err(|m| format!("serialising two PURLs after one another panicked: {m}"))?;
+        match r.1 {
+            Ok(js) if js == serde_json::to_string(want).unwrap() => {},
+            other => {
+                return Err(format!(
+                    "serialised directly after {:?}, the PURL {want:?} comes out as {:?}",
+                    if std::ptr::eq(first, &pa) { &ta } else { &tb },
+                    other.map_err(|e| e.to_string())
+                ))
+            },
+        }
+        // and the way back: deserialising one text after the other
+        let back = guard(|| {
+            let _ = serde_json::from_str::<GenericPurl<String>>(&serde_json::to_string(if std::ptr::eq(first, &pa) { &ta } else { &tb }).unwrap());
+            serde_json::from_str::<GenericPurl<String>>(&serde_json::to_string(want).unwrap())
+        })
+        .map_err(|m| format!("deserialising two PURLs after one another panicked: {m}"))?;
+        // (the reference is what from_str makes of the same text: a builder-made value may keep
+        // insignificant pieces that no parse gives back)
+        let direct = parse::<IStr>(want).ok().and_then(|r| r.ok());
+        match (back, direct) {
+            (Ok(q), Some(d)) if q == d => {},
+            (Err(_), None) => {},
+            (other, d) => {
+                return Err(format!(
+                    "deserialised directly after a near-collision, {want:?} gives {:?}; from_str gives {:?}",
+                    other.map(|q| observe(&q)).map_err(|e| e.to_string()),
+                    d.map(|d| observe(&d))
+                ))
+            },
+        }
+    }
+    st.class_if(ta != tb, "pair-with-different-strings");
+    if ta != tb {
+        st.nontrivial(&("near", ta.as_str(), tb.as_str()), || json!({ "first": ta, "second": tb }));
+    }
+    Ok(())
+}
+
 pub fn sections() -> Vec<Box<dyn Section>> {
     vec![
         Box::new(Random {
@@ -288,6 +357,18 @@ pub fn sections() -> Vec<Box<dyn Section>> {
             strategy: Box::new(|_| gspelled()),
             oracle: o_spelled,
             required: vec!["accepted-both-ways", "refused-both-ways"],
+        }),
+        Box::new(Random {
+            name: "consecutive-serialisations-of-near-collisions".into(),
+            quick: 60_000,
+            thorough: 2_000_000,
+            strategy: Box::new(|_| {
+                (prop_oneof![crate::spell::gtuple(false), crate::spell::gtuple(true)], crate::props::c19::gmutation(), crate::spell::gchoices())
+                    .prop_map(|(tuple, mutation, spelling)| crate::props::c19::PairCase { tuple, mutation, second: None, spelling })
+                    .boxed()
+            }),
+            oracle: o_near_pair,
+            required: vec!["pair-with-different-strings"],
         }),
         Box::new(Random {
             name: "faulted".into(),
